@@ -286,7 +286,11 @@ func mutateLines(r *rng.R, lines []string) []string {
 			segs = append(segs[:0:0], segs...)
 			for j, s := range segs {
 				if s == "-" {
-					segs = segs[:j+1+r.Intn(2)]
+					e := j + 1 + r.Intn(2)
+					if e > len(segs) {
+						e = len(segs)
+					}
+					segs = segs[:e]
 					break
 				}
 			}
@@ -305,6 +309,15 @@ func mutateLines(r *rng.R, lines []string) []string {
 		out[i] = strings.Join(segs, " ")
 	}
 	return out
+}
+
+func init() {
+	common.Register("c12", common.Prop{
+		Generate: func(r common.Rand, tier string, n int, emit func(*common.Case)) {
+			Generate(rng.New(r.U64()), tier, n, emit)
+		},
+		Replay: RunJSON,
+	})
 }
 
 func Generate(r *rng.R, tier string, n int, emit func(*common.Case)) {
